@@ -310,6 +310,23 @@ Definition res_err (e : N) : txres := Build_txres false e 0 [] false.
 Definition group_gid (b : ibtp) : option gid :=
   match b_grp b with Some (g, n) => Some (b_from b, g, n) | None => None end.
 
+(** [beginTransaction] / [reportTransaction]: the call into the transaction manager *)
+Definition tm_step (cfg : Defects) (w : world) (h : N) (b : ibtp) (sf sd : svc_info) (terr : bool) (t : txm)
+  : option tmres :=
+  if is_request b then
+    if negb (sv_hub sf =? sv_hub sd) then
+      let T := if sv_hub sf =? 0 then 0 else u64_of_Z (b_T b) in
+      Some (tm_begin_interbxh cfg t h (b_id b) T (b_xst b) terr)
+    else
+      match group_gid b with
+      | None => Some (tm_begin t h (b_id b) (u64_of_Z (b_T b)) terr)
+      | Some g => tm_begin_multi cfg (id_sort w) t h g (b_id b) (u64_of_Z (b_T b)) terr (snd g)
+      end
+  else tm_report cfg (id_sort w) t (b_id b) (b_typ b).
+
+Definition rec_missing (c : ichain) (k : svc) : bool :=
+  match i_rec c k with None => true | Some _ => false end.
+
 (** [HandleIBTP] on the pair (transaction manager, interchain) state; [None] = outside the domain *)
 Definition handle_ibtp (cfg : Defects) (w : world) (h serial : N) (b : ibtp) (t : txm) (c : ichain)
   : option (txm * ichain * txres) :=
@@ -318,29 +335,15 @@ Definition handle_ibtp (cfg : Defects) (w : world) (h serial : N) (b : ibtp) (t 
   | ChkOk batch terr notif =>
       match svc_lookup w (b_from b), svc_lookup w (b_to b) with
       | Some sf, Some sd =>
-          let rec := get_rec c (b_from b) in
-          let r :=
-            if is_request b then
-              if negb (sv_hub sf =? sv_hub sd) then
-                let T := if sv_hub sf =? 0 then 0 else u64_of_Z (b_T b) in
-                Some (tm_begin_interbxh cfg t h (b_id b) T (b_xst b) terr)
-              else
-                match group_gid b with
-                | None => Some (tm_begin t h (b_id b) (u64_of_Z (b_T b)) terr)
-                | Some g => tm_begin_multi cfg (id_sort w) t h g (b_id b) (u64_of_Z (b_T b)) terr (snd g)
-                end
-            else tm_report cfg (id_sort w) t (b_id b) (b_typ b) in
-          match r with
+          match tm_step cfg w h b sf sd terr t with
           | None => None
           | Some (TmErr e) => Some (t, c, res_err e)
           | Some (TmOk t' ch) =>
-              let '(c1, chains) := notify_src_dst cfg w c h sf sd ch in
-              let '(c2, ret) := process_ibtp w c1 b rec serial notif terr batch (c_cur ch) (c_child ch) in
-              let audit_fail :=
-                w_audit w && (match i_rec c2 (b_from b) with None => true | Some _ => false end
-                              || match i_rec c2 (b_to b) with None => true | Some _ => false end) in
-              if audit_fail then Some (t', c2, Build_txres false E_AUDIT 0 chains batch)
-              else Some (t', c2, Build_txres true 0 ret chains batch)
+              let nc := notify_src_dst cfg w c h sf sd ch in
+              let pc := process_ibtp w (fst nc) b (get_rec c (b_from b)) serial notif terr batch (c_cur ch) (c_child ch) in
+              if w_audit w && (rec_missing (fst pc) (b_from b) || rec_missing (fst pc) (b_to b))
+              then Some (t', fst pc, Build_txres false E_AUDIT 0 (snd nc) batch)
+              else Some (t', fst pc, Build_txres true 0 (snd pc) (snd nc) batch)
           end
       | _, _ => None
       end
